@@ -86,7 +86,8 @@ def model (f : List String) : String :=
     match mk shape rx hx, mk shape ry hy, parseShape shape.toList with
     | some x, some y, some (sh, _) =>
       "lh=" ++ hx ++ "/" ++ hy ++ " hx=" ++ hexOf (hashV x) ++ " hy=" ++ hexOf (hashV y) ++ " ops=" ++
-        (if comparable sh then opsBits x y else "------")
+        (if comparable sh then opsBits x y else "------") ++ " self=" ++
+        (if comparable sh then opsBits x x else "------")
     | _, _, _ => "bad-op"
   | "cmp" :: _ => "no-leaf-hashes"
   | ["set", _name, members, probes, _mv, _pv] =>
@@ -132,7 +133,9 @@ def judge (f : List String) (ans : String) : String :=
             else if comparable sh then
               let want := bit (c != .eq) ++ bit (c == .eq) ++ bit (c == .lt) ++ bit (c == .gt) ++
                 bit (c != .gt) ++ bit (c != .lt)
-              if ops == want then "ok" ++ feat else "bad:operators-disagree-with-lexicographic-order want " ++ want ++ feat
+              if ops != want then "bad:operators-disagree-with-lexicographic-order want " ++ want ++ feat
+              else if field ans "self" != some "010011" then "bad:comparing-a-value-with-itself" ++ feat
+              else "ok" ++ feat
             else "ok" ++ feat
         | _, _, _, _, _ => "bad:unparsable" ++ "\tunparsable"
       | _ => "bad:unparsable" ++ "\tunparsable"
